@@ -89,13 +89,38 @@ def _mini_slots(quick: bool) -> list[dict[str, Any]]:
     return out
 
 
-def _py_sig(sig: list[dict[str, Any]]) -> inspect.Signature:
-    return inspect.Signature([inspect.Parameter(p["n"], _KIND[p["k"]], default=(0 if p["d"] else inspect.Parameter.empty)) for p in sig])
+def _py_fn(sig: list[dict[str, Any]]):
+    """A real Python function with this parameter list: CALLING it is the oracle for the binding
+    algorithm (inspect.Signature.bind deviates from the interpreter for positional-only names passed
+    as keywords next to **kwargs)."""
+    parts = []
+    slash_done = star_done = False
+    kinds = [p["k"] for p in sig]
+    for i, p in enumerate(sig):
+        k = p["k"]
+        if k != "po" and not slash_done and "po" in kinds[:i]:
+            parts.append("/")
+            slash_done = True
+        if k == "ko" and not star_done and "vp" not in kinds:
+            parts.append("*")
+            star_done = True
+        if k == "vp":
+            parts.append("*" + p["n"])
+            star_done = True
+        elif k == "vk":
+            parts.append("**" + p["n"])
+        else:
+            parts.append(p["n"] + ("=0" if p["d"] else ""))
+    if "po" in kinds and not slash_done:
+        parts.append("/")
+    ns: dict[str, Any] = {}
+    exec("def f(" + ", ".join(parts) + "):\n    return 1\n", ns)
+    return ns["f"]
 
 
-def _py_accepts(sig: inspect.Signature, np_: int, kws) -> bool:
+def _py_accepts(fn, np_: int, kws) -> bool:
     try:
-        sig.bind(*([0] * np_), **{k: 0 for k in kws})
+        fn(*([0] * np_), **{k: 0 for k in kws})
         return True
     except TypeError:
         return False
@@ -153,17 +178,17 @@ def run(ctx: Ctx) -> None:
     rows = parse_tlc_values(r.output.splitlines())
     cleanup_tlc(r)
     bad = 0
-    cache: dict[int, tuple[inspect.Signature, inspect.Signature]] = {}
+    cache: dict[int, tuple[Any, Any]] = {}
     for row in rows:
         s = row["s"] - 1
         if s not in cache:
-            cache[s] = (_py_sig(mini[s]["orig"]), _py_sig(mini[s]["sub"]))
+            cache[s] = (_py_fn(mini[s]["orig"]), _py_fn(mini[s]["sub"]))
         po, ps = cache[s]
         if _py_accepts(po, row["np"], row["kw"]) != (row["o"] == "ok") or _py_accepts(ps, row["np"], row["kw"]) != (row["v"] == "ok"):
             bad += 1
     ctx.extra["mini_rows_checked_against_python_bind"] = len(rows)
     if bad or not rows:
-        raise MachineryError(f"J2O_CallForms disagrees with inspect.Signature.bind on {bad} of {len(rows)} miniature forms (specification bug)")
+        raise MachineryError(f"J2O_CallForms disagrees with the Python interpreter's own argument binding on {bad} of {len(rows)} miniature forms (specification bug)")
     ctx.cov["evaluations"] += len(rows)
 
     # ---- (b) the extracted facts
@@ -234,7 +259,7 @@ def run(ctx: Ctx) -> None:
         fb = {sid: forms_by_slot.get(sid, []) for c in ch for sid in by_comp[c]}
         mb = {sid: must_by_slot.get(sid, []) for c in ch for sid in by_comp[c]}
         tasks.append({"fn": "harness.formjobs:forms_job", "args": {"components": allc, "forms_by_slot": fb, "must_by_slot": mb, "max_base": 2 if ctx.quick else 3,
-                                                                   "max_forms": 16 if ctx.quick else 120, "budget_s": 420 if ctx.quick else 2400, "seed": ctx.seed},
+                                                                   "max_forms": 16 if ctx.quick else 100000, "budget_s": 420 if ctx.quick else 2400, "seed": ctx.seed},
                       "timeout": 700 if ctx.quick else 3000})
     res = run_tasks(tasks, nworkers=14, timeout=3400)
     executed = 0
